@@ -1,5 +1,6 @@
 import pathlib
 import os
+import re
 from typing import Optional, Sequence, Tuple
 
 from conductor.context import Context
@@ -9,6 +10,22 @@ from conductor.execution.ops.operation import Operation
 from conductor.execution.operation_state import OperationState
 from conductor.task_identifier import TaskIdentifier
 from conductor.task_types.base import TaskType
+
+
+def _made_by_combine(link: pathlib.Path, dep_id: TaskIdentifier) -> bool:
+    """
+    The entry combine() creates for a dependency is a symbolic link to that
+    dependency's output directory (`<name>.task` or `<name>.task.<version>`).
+    Any other symbolic link found at the entry's place was put there by someone
+    else and must not be replaced.
+    """
+    target_name = os.path.basename(os.readlink(link))
+    return (
+        re.match(
+            r"^{}\.task(\.[1-9][0-9]*)?\Z".format(re.escape(dep_id.name)), target_name
+        )
+        is not None
+    )
 
 
 class CombineOutputs(Operation):
@@ -59,10 +76,10 @@ class CombineOutputs(Operation):
                 )
             )
             if copy_into.exists():
-                if copy_into.is_symlink():
+                if copy_into.is_symlink() and _made_by_combine(copy_into, dep_id):
                     copy_into.unlink()
                 else:
-                    # Unexpected - it should be a symlink.
+                    # Unexpected - it should be a symlink to a task output.
                     raise CombineOutputFileConflict(output_file=str(copy_into))
             # The base data may be large, so we use symlinks to avoid copying.
             copy_into.symlink_to(relative_to_target)
